@@ -1,6 +1,6 @@
 \* exhaustive (thorough): 2 objects (one of them appears later) on 2 positions, 1 parameter x {unset,1}, 2 cycles x 2 nodes, labels "" < "EOL", <= 3 snapshots, depth 7
 CONSTANTS NObj = 2  NInit = 1  NLoc = 2  NPar = 1  NVal = 1  MaxC = 1  MaxN = 1  MaxSnaps = 3  MaxLevel = 7
-CONSTANT Labels <- McLabels
+CONSTANT Labels <- McLabelsB
 INIT Init
 NEXT Next
 CONSTRAINT Bound
